@@ -60,5 +60,19 @@ CHECKS = {
         "Bounded: keyboard walks, multi-word splitting, alpha_detection's list loop, the end-to-end pipeline (exhaustive small strings), lower_keep_length (all code points).",
    note="string theory is an uninterpreted sort with slice/concat axioms; lower() has no length axiom (precondition in detect_alpha); detect_keyboard_walk, MultiWordDetector.parse "
         "and alpha_detection's list loop are trusted in the deductive part"),
+ 'C06': dict(level='other', technique=TECH + "; Counter by assumed contract; end-to-end training as bounded stand-in",
+   text="calculate_probabilities: every item once in most_common order with count/total; the writer truncates and writes one line value TAB repr(p) LF per item; "
+        "save_indexed_counters: old files removed, exactly one file per key; run_trainer: count['M'] = N/coverage - N (absent for 1, only structure for 0), N from pass 1; "
+        "E/W structures unsupported. Lemmas: sorted, sum to 1 (A-REAL). Bounded: real CLI, hash-seed determinism.",
+   note="Counter.most_common/values assumed; A-FP, A-REAL; parse/OMEN/savers trusted inside run_trainer; determinism only bounded"),
+ 'C07': dict(level='other', technique=TECH + "; character table by exhaustive enumeration; encoding frame on the AST",
+   text="check_valid accepts only passwords that stay on one line (no TAB, C0, nor any code point at which splitlines/codecs break, set recomputed each run); writer format; "
+        "guesser reader returns every value unchanged, grouping equal probabilities (sorted file => strictly decreasing groups); every ruleset reader/writer names its encoding. "
+        "Bounded: value-by-value round trip in utf-8 and cp1251 through guesser, scorer and OMEN loaders.",
+   note="A-CODEC; rstrip/split/float(repr) identities validated only by the bounded round trip; scorer and OMEN loaders not under contract"),
+ 'C19': dict(level='other', technique=TECH + "; string builtins uninterpreted; equivalence of textual forms by bounded stand-in",
+   text="read_password: no exception escapes for any line content, only check_valid-accepted passwords are yielded, num_passwords advances by exactly the number yielded; "
+        "run_trainer: three passes built from identical arguments, pass-1 N used everywhere. Bounded: $HEX[] / --prefixcount / junk-line forms train byte-identical rulesets.",
+   note="hex/strip/split/join identities carried by the bounded stand-in; negative count prefixes outside the domain"),
 }
 NOT_APPLICABLE = {}
